@@ -1,0 +1,214 @@
+//! Verification seams. Compiled only with `--cfg ohsl_verif`; never part of a
+//! normal build. A deterministic simulator (outside this repository) owns the
+//! thread scheduler, the CPU count and the file system through this module.
+//!
+//! * `thread` / `sync` re-export the `shuttle` runtime, so code that says
+//!   `std::thread::scope(..)` under a block-level `use crate::verif_seam as std`
+//!   runs its workers as tasks of a controlled scheduler.
+//! * `num_cpus::get()` returns an installed override, else the real value.
+//! * `fs::File` / `fs::read_to_string` forward every call to an installed
+//!   `FsBackend`; with no backend installed they pass through to `std::fs`.
+//!
+//! Everything else that is reachable as `std::…` is re-exported unchanged so that a
+//! shadowed `std` keeps resolving ordinary paths (`std::cmp::min`, …).
+
+pub use ::std::*;
+
+pub mod thread {
+    pub use shuttle::thread::*;
+}
+
+pub mod sync {
+    pub use shuttle::sync::*;
+}
+
+pub mod num_cpus {
+    use ::std::cell::Cell;
+
+    ::std::thread_local! {
+        static OVERRIDE: Cell<Option<usize>> = const { Cell::new(None) };
+        static CALLS: Cell<u64> = const { Cell::new(0) };
+    }
+
+    /// Install (Some) or remove (None) the simulated CPU count for this OS thread.
+    pub fn set_override( n: Option<usize> ) {
+        OVERRIDE.with(|o| o.set( n ));
+    }
+
+    /// Number of times `get`/`get_physical` was consulted on this OS thread.
+    pub fn calls() -> u64 {
+        CALLS.with(|c| c.get())
+    }
+
+    pub fn get() -> usize {
+        CALLS.with(|c| c.set( c.get() + 1 ));
+        match OVERRIDE.with(|o| o.get()) {
+            Some( n ) => n,
+            None => ::num_cpus::get(),
+        }
+    }
+
+    pub fn get_physical() -> usize {
+        CALLS.with(|c| c.set( c.get() + 1 ));
+        match OVERRIDE.with(|o| o.get()) {
+            Some( n ) => n,
+            None => ::num_cpus::get_physical(),
+        }
+    }
+}
+
+pub mod fs {
+    use ::std::cell::RefCell;
+    use ::std::io::{self, Read, Write};
+    use ::std::path::Path;
+
+    pub use ::std::fs::*;
+
+    /// What the simulator implements: an in-memory disk that may inject faults.
+    pub trait FsBackend {
+        fn create(&mut self, path: &str ) -> io::Result<u64>;
+        fn open(&mut self, path: &str ) -> io::Result<u64>;
+        fn write(&mut self, handle: u64, buf: &[u8] ) -> io::Result<usize>;
+        fn read(&mut self, handle: u64, buf: &mut [u8] ) -> io::Result<usize>;
+        fn flush(&mut self, handle: u64 ) -> io::Result<()>;
+        fn sync(&mut self, handle: u64 ) -> io::Result<()>;
+        fn close(&mut self, handle: u64 );
+    }
+
+    ::std::thread_local! {
+        static BACKEND: RefCell<Option<Box<dyn FsBackend>>> = const { RefCell::new(None) };
+    }
+
+    /// Install a backend for this OS thread (replacing any previous one).
+    pub fn install( backend: Box<dyn FsBackend> ) {
+        BACKEND.with(|b| *b.borrow_mut() = Some( backend ));
+    }
+
+    /// Remove and return the backend of this OS thread.
+    pub fn uninstall() -> Option<Box<dyn FsBackend>> {
+        BACKEND.with(|b| b.borrow_mut().take())
+    }
+
+    fn with_backend<R>( f: impl FnOnce(&mut dyn FsBackend) -> R ) -> Option<R> {
+        BACKEND.with(|b| {
+            match b.try_borrow_mut() {
+                Ok( mut guard ) => match guard.as_mut() {
+                    Some( backend ) => Some( f( backend.as_mut() ) ),
+                    None => None,
+                },
+                Err( _ ) => None,
+            }
+        })
+    }
+
+    enum Inner {
+        Real( ::std::fs::File ),
+        Sim( u64 ),
+    }
+
+    /// Stand-in for `std::fs::File` (create / open / Write / Read / sync / drop).
+    pub struct File {
+        inner: Inner,
+    }
+
+    impl File {
+        pub fn create<P: AsRef<Path>>( path: P ) -> io::Result<File> {
+            let name = path.as_ref().to_string_lossy().into_owned();
+            match with_backend(|b| b.create( &name )) {
+                Some( r ) => r.map(|h| File { inner: Inner::Sim( h ) }),
+                None => ::std::fs::File::create( path ).map(|f| File { inner: Inner::Real( f ) }),
+            }
+        }
+
+        pub fn open<P: AsRef<Path>>( path: P ) -> io::Result<File> {
+            let name = path.as_ref().to_string_lossy().into_owned();
+            match with_backend(|b| b.open( &name )) {
+                Some( r ) => r.map(|h| File { inner: Inner::Sim( h ) }),
+                None => ::std::fs::File::open( path ).map(|f| File { inner: Inner::Real( f ) }),
+            }
+        }
+
+        pub fn sync_all(&self) -> io::Result<()> {
+            match &self.inner {
+                Inner::Real( f ) => f.sync_all(),
+                Inner::Sim( h ) => with_backend(|b| b.sync( *h )).unwrap_or( Ok(()) ),
+            }
+        }
+
+        pub fn sync_data(&self) -> io::Result<()> {
+            self.sync_all()
+        }
+
+        fn do_write(&self, buf: &[u8] ) -> io::Result<usize> {
+            match &self.inner {
+                Inner::Real( f ) => { let mut f: &::std::fs::File = f; f.write( buf ) },
+                Inner::Sim( h ) => with_backend(|b| b.write( *h, buf ))
+                    .unwrap_or_else(|| Err( io::Error::new( io::ErrorKind::Other, "no fs backend" ) )),
+            }
+        }
+
+        fn do_flush(&self) -> io::Result<()> {
+            match &self.inner {
+                Inner::Real( f ) => { let mut f: &::std::fs::File = f; f.flush() },
+                Inner::Sim( h ) => with_backend(|b| b.flush( *h )).unwrap_or( Ok(()) ),
+            }
+        }
+
+        fn do_read(&self, buf: &mut [u8] ) -> io::Result<usize> {
+            match &self.inner {
+                Inner::Real( f ) => { let mut f: &::std::fs::File = f; f.read( buf ) },
+                Inner::Sim( h ) => with_backend(|b| b.read( *h, buf ))
+                    .unwrap_or_else(|| Err( io::Error::new( io::ErrorKind::Other, "no fs backend" ) )),
+            }
+        }
+    }
+
+    impl Write for File {
+        fn write(&mut self, buf: &[u8] ) -> io::Result<usize> { self.do_write( buf ) }
+        fn flush(&mut self) -> io::Result<()> { self.do_flush() }
+    }
+
+    impl Write for &File {
+        fn write(&mut self, buf: &[u8] ) -> io::Result<usize> { self.do_write( buf ) }
+        fn flush(&mut self) -> io::Result<()> { self.do_flush() }
+    }
+
+    impl Read for File {
+        fn read(&mut self, buf: &mut [u8] ) -> io::Result<usize> { self.do_read( buf ) }
+    }
+
+    impl Read for &File {
+        fn read(&mut self, buf: &mut [u8] ) -> io::Result<usize> { self.do_read( buf ) }
+    }
+
+    impl Drop for File {
+        fn drop(&mut self) {
+            if let Inner::Sim( h ) = self.inner {
+                let _ = with_backend(|b| b.close( h ));
+            }
+        }
+    }
+
+    /// `std::fs::read_to_string` over the seam: std's own `Read::read_to_string`
+    /// loop (short reads, `Interrupted` retry, UTF-8 check) is what runs.
+    pub fn read_to_string<P: AsRef<Path>>( path: P ) -> io::Result<String> {
+        let mut file = File::open( path )?;
+        let mut string = String::new();
+        file.read_to_string( &mut string )?;
+        Ok( string )
+    }
+
+    /// `std::fs::read` over the seam.
+    pub fn read<P: AsRef<Path>>( path: P ) -> io::Result<Vec<u8>> {
+        let mut file = File::open( path )?;
+        let mut bytes = Vec::new();
+        file.read_to_end( &mut bytes )?;
+        Ok( bytes )
+    }
+
+    /// `std::fs::write` over the seam.
+    pub fn write<P: AsRef<Path>, C: AsRef<[u8]>>( path: P, contents: C ) -> io::Result<()> {
+        let mut file = File::create( path )?;
+        file.write_all( contents.as_ref() )
+    }
+}
